@@ -37,6 +37,10 @@ add(_alloc_cfg('pocca_pocma', 1, 1, 0, 0))
 add(_alloc_cfg('pocca_pocs', 1, 0, 1, 0))
 add(_alloc_cfg('pocma_pocs', 0, 1, 1, 0))
 
+# the configuration class excluded everywhere else: inline capacity larger than max_size () (known finding KF-C12-1)
+add(_c('kf_inline_gt_max', model_defines={'KF_INLINE_EXCEEDS_MAX_SIZE': 1}, only=['svb_append_element__pcE'], props=['C12'],
+       facts={'MOVE_NOEXCEPT': 1, 'COPYABLE': 1, 'RELOCATE_WITH_MOVE': 1, 'POCCA': 0, 'POCMA': 0, 'POCS': 0, 'ALWAYS_EQUAL': 0}))
+
 def cfg_defines(cfg):
     d = ['-DCFG_CAP_BOUND=(1u<<30)', '-DCFG_ALLOC_MAX_BOUND=(1ul<<50)']
     if str(cfg['N']) == '0':
@@ -50,6 +54,6 @@ def cfg_defines(cfg):
     return d
 
 TIERS = {
-    'quick': ['main', 'tmove', 'aprop', 'aeq', 'pocs'],
-    'thorough': ['main', 'tmove', 'aprop', 'aeq', 'pocs', 'pocca', 'pocma', 'pocca_pocma', 'pocca_pocs', 'pocma_pocs'],
+    'quick': ['main', 'tmove', 'aprop', 'aeq', 'pocs', 'kf_inline_gt_max'],
+    'thorough': ['main', 'tmove', 'aprop', 'aeq', 'pocs', 'kf_inline_gt_max', 'pocca', 'pocma', 'pocca_pocma', 'pocca_pocs', 'pocma_pocs'],
 }
